@@ -285,6 +285,29 @@ class KlongInterpreter():
         del self._context[k]
         self._compiled_cache.clear()
 
+    def _compiled_args(self, var_syms):
+        """
+        Fetch the operands of a compiled expression.
+
+        Compiled code is specialised on what the compiler admitted for each
+        variable: a Python int/float or a backend array.  A compilation is kept
+        on the syntax tree and may run again after a variable (or a function
+        argument) has been rebound to something else, e.g. a string, for which
+        the Python operators mean something different.  Re-check the admission
+        here and raise otherwise; every caller then falls back to the interpreter.
+        Empty arrays are left to the interpreter as well: a ufunc reduce returns
+        its identity for them whereas Over returns the empty list.
+        """
+        ndarray = self._backend.np.ndarray
+        args = []
+        for s in var_syms:
+            v = self._context[s]
+            tv = type(v)
+            if not (tv is int or tv is float or (isinstance(v, ndarray) and self._backend.array_size(v) > 0)):
+                raise TypeError(f"compiled expression does not apply to {s}")
+            args.append(v)
+        return args
+
     def _get_op_fn(self, s, arity):
         return self._vm[s] if arity == 1 else self._vd[s]
 
@@ -695,8 +718,7 @@ class KlongInterpreter():
                     if compiled and compiled is not False:
                         fn, var_syms = compiled
                         try:
-                            args = [self._context[s] for s in var_syms]
-                            return fn(*args)
+                            return fn(*self._compiled_args(var_syms))
                         except Exception:
                             pass
                 f = self._get_op_fn(x.a.a, x.a.arity)
@@ -713,8 +735,7 @@ class KlongInterpreter():
                 if compiled and compiled is not False:
                     fn, var_syms = compiled
                     try:
-                        args = [self._context[s] for s in var_syms]
-                        return fn(*args)
+                        return fn(*self._compiled_args(var_syms))
                     except Exception:
                         pass
                 return chain_adverbs(self, x.a)()
@@ -755,8 +776,7 @@ class KlongInterpreter():
             if compiled and compiled is not False:
                 fn, var_syms = compiled
                 try:
-                    args = [self._context[s] for s in var_syms]
-                    return fn(*args)
+                    return fn(*self._compiled_args(var_syms))
                 except Exception:
                     pass  # fall through to interpreter
 
